@@ -497,6 +497,29 @@ theorem auth_write_auth_complete (C : Cipher) (hC : BlockCipher C) (forget : Boo
 
 example : card0.present 5 = true ∧ card0.mcBit 0 5 = true := by decide
 
+/-- `protect(pw)` followed by `authenticate(pw)` succeeds (FeliCa Lite-S), through ALL the commands
+of both methods against the stateful card: on a card whose system blocks are not locked yet -
+whatever key it holds, whatever its write counter, challenge block and user blocks are -
+`FelicaLiteS.protect(pw, read_protect, protect_from >= 1)` reads MC and CKV, writes CKV and the key
+block, authenticates mutually with the new key (its own challenge `rc0`) and writes MC: True;
+the `authenticate(pw)` that follows on the same tag object (challenge `rc1`, the counter advanced
+by the six writes before it) returns True.  `pw` is the empty password or has at least 16 octets. -/
+theorem protect_then_authenticate_complete (C : Cipher) (hC : BlockCipher C) (forget : Bool) (c : Card) (idm p rc0 rc1 : Bytes)
+    (rp : Bool) (pf : Nat) (rd : Reader) (tr : List (Bytes × Option Bytes)) (h : Unlocked c idm)
+    (hp : p = [] ∨ 16 ≤ p.length)
+    (hrc0 : rc0.length = 16) (hrc0B : IsBytes rc0) (hrc1 : rc1.length = 16) (hrc1B : IsBytes rc1) :
+    (run C forget (honest C) idm true [.protect (some p) rp pf rc0, .auth p rc1] ⟨rd, c, tr⟩).1
+      = [.ok (.bool true), .ok (.bool true)] :=
+  protect_then_auth_card C hC forget c idm p rc0 rc1 rp pf rd tr h hp hrc0 hrc0B hrc1 hrc1B
+
+/-- the card of `card0` with a CKV block is `Unlocked` (MC octet 2 is FFh) -/
+def card1 : Card :=
+  Card.ofBlocks true idm0 [(0x80, zeros 16), (0x82, idm0 ++ zeros 8), (0x86, zeros 16), (0x87, List.replicate 16 9),
+    (0x88, [0xFF, 0xFF, 0xFF, 0, 7, 0] ++ zeros 10), (0x90, [0xFE, 0xFF, 0] ++ zeros 13), (0x92, zeros 16)] false false
+
+example : Unlocked card1 idm0 :=
+  ⟨rfl, rfl, rfl, ⟨_, _, _, _, _, _, rfl, rfl⟩, ⟨_, _, _, rfl, rfl⟩, rfl, ⟨_, rfl, rfl, by decide⟩, ⟨_, rfl, rfl, by decide⟩, rfl, rfl⟩
+
 /-! ### frames of any length, PWD_AUTH answers of any length -/
 
 /-- a frame shorter than the 12 octets of length, code, IDm and status flags is refused with
